@@ -33,37 +33,46 @@ Theorem C16_c_text_everywhere : forall t,
 Proof. exact dispatch_correct. Qed.
 Print Assumptions C16_c_text_everywhere.
 
-(* Python: outside the two refuted regions, to_dict()/json.dumps state the specified value *)
+(* Python: outside the one refuted region (field names with the enum-proxy prefix),
+   json.dumps(to_dict(), default=_json_default) states the specified value — byte arrays
+   included, as lists (fix b3480f8; the hook is read from bp.py into gen/GenJson.v) *)
 Theorem C16_py_tree : forall t v,
-  no_byte_array t = true -> no_proxy_names t = true -> names_distinct t = true ->
+  no_proxy_names t = true -> names_distinct t = true ->
   has_ty (erase t) v = true ->
   py_tree t v = POk (expected t v).
 Proof. exact py_tree_correct. Qed.
 Print Assumptions C16_py_tree.
 
-(* json.dumps of to_dict() recovers the tree: every value to_dict() can hold in the guarded
-   region is serializable *)
-Theorem C16_py_dumps_total : forall j, py_dumps (pyj_of j) = POk j.
-Proof. exact dumps_pyj_of. Qed.
+(* to_dict() holds the value tree with names in number order; a `byte[n]` field is still a
+   bytearray object there (Json.dict_spec) — only to_json() converts it *)
+Theorem C16_py_to_dict : forall t,
+  no_proxy_names t = true -> names_distinct t = true ->
+  forall v, has_ty (erase t) v = true ->
+  py_asdict t v = POk (dict_spec t v).
+Proof. exact asdict_correct. Qed.
+Print Assumptions C16_py_to_dict.
+
+(* json.dumps with the hook writes the specified value for whatever to_dict() is specified
+   to hold: no tree, no value raises *)
+Theorem C16_py_dumps_total : forall t v, py_dumps (dict_spec t v) = POk (expected t v).
+Proof. exact dumps_dict_spec. Qed.
 Print Assumptions C16_py_dumps_total.
 
-(* REFUTED on the current tree (finding json-bytes): a message with a byte array — Python
-   to_json() raises TypeError (to_dict() holds a bytearray), C prints the list *)
-Theorem C16_py_bytearray_refuted :
-  exists t v, shape_ok t = true /\ wf (erase t) = true /\ has_ty (erase t) v = true /\
-              no_proxy_names t = true /\ names_distinct t = true /\ no_byte_array t = false /\
-              py_tree t v = PRaise PyTypeError /\
-              py_asdict t v = POk (PJDict [("b", PJBytes [7])]) /\
-              c_text t (store t v) = Some (print_compact (expected t v)) /\
-              print_compact (expected t v) = "{""b"":[7]}".
-Proof. exact py_bytearray_refuted. Qed.
-Print Assumptions C16_py_bytearray_refuted.
+(* regression of the FIXED finding json-bytes (corpus/C16/json_bytes.json): Python JSON = C
+   JSON = specified text, while to_dict() keeps the bytearray *)
+Theorem C16_py_bytearray_regression :
+  py_asdict bytes_t bytes_v = POk (PJDict [("b", PJBytes [7])]) /\
+  py_to_json "," ":" bytes_t bytes_v = POk "{""b"":[7]}" /\
+  c_text bytes_t (store bytes_t bytes_v) = Some "{""b"":[7]}" /\
+  print_compact (expected bytes_t bytes_v) = "{""b"":[7]}".
+Proof. exact py_bytearray_regression. Qed.
+Print Assumptions C16_py_bytearray_regression.
 
 (* REFUTED on the current tree (finding json-proxy-name): a field whose name starts with
    the enum-proxy prefix is dropped by the generated dict_factory *)
 Theorem C16_py_proxy_name_refuted :
   exists t v, shape_ok t = true /\ wf (erase t) = true /\ has_ty (erase t) v = true /\
-              no_byte_array t = true /\ names_distinct t = true /\ no_proxy_names t = false /\
+              names_distinct t = true /\ no_proxy_names t = false /\
               py_tree t v = POk (JObj []) /\
               expected t v = JObj [("_enum_field_proxy__x", JBool true)] /\
               c_text t (store t v) = Some (print_compact (expected t v)).
@@ -75,7 +84,7 @@ Print Assumptions C16_py_proxy_name_refuted.
 Theorem C16_c_eq_py : forall t v,
   shape_ok t = true -> wf (erase t) = true -> has_ty (erase t) v = true ->
   (exists x fs, t = NMsg x fs) ->
-  no_byte_array t = true -> no_proxy_names t = true -> names_distinct t = true ->
+  no_proxy_names t = true -> names_distinct t = true ->
   exists s, py_to_json "," ":" t v = POk s /\ c_text t (store t v) = Some s.
 Proof. exact c_eq_py. Qed.
 Print Assumptions C16_c_eq_py.
@@ -105,7 +114,7 @@ Print Assumptions C16_c_text_wf_json.
 
 (* ... and so is Python's to_json(separators=(",", ":")) in the guarded region *)
 Theorem C16_py_compact_wf_json : forall t v,
-  no_byte_array t = true -> no_proxy_names t = true -> names_distinct t = true ->
+  no_proxy_names t = true -> names_distinct t = true ->
   has_ty (erase t) v = true -> names_safe t = true ->
   exists s, py_to_json "," ":" t v = POk s /\ wf_json s = true.
 Proof. exact py_compact_wf_json. Qed.
@@ -134,20 +143,20 @@ Proof. vm_compute. split; reflexivity. Qed.
 Definition ex_inner : nty := NMsg false [(2, ("ok", NBool)); (1, ("x", NInt 13))].
 Definition ex_t : nty :=
   NMsg true [ (3, ("a", NUint 5)); (1, ("c", NEnum 3 [0; 2])); (2, ("t", NAlias (NInt 48)));
-              (7, ("w", NAlias (NArr true 3 (NUint 33)))); (4, ("inn", ex_inner));
+              (7, ("w", NAlias (NArr true 3 (NUint 33)))); (9, ("raw", NArr false 2 NByte)); (4, ("inn", ex_inner));
               (5, ("arr", NArr false 2 ex_inner)); (6, ("small", NArr false 3 (NInt 7)));
               (8, ("tt", NArr false 2 (NAlias (NInt 64)))) ].
 Definition ex_iv (b : bool) (x : Z) : val := VM [(2, VB b); (1, VZ x)].
 Definition ex_v : val :=
-  VM [ (3, VZ 31); (1, VZ 2); (2, VZ (-140737488355328)); (7, VL [VZ 1; VZ 8589934591; VZ 0]);
+  VM [ (3, VZ 31); (1, VZ 2); (2, VZ (-140737488355328)); (7, VL [VZ 1; VZ 8589934591; VZ 0]); (9, VL [VZ 255; VZ 0]);
        (4, ex_iv true (-4096)); (5, VL [ex_iv false 4095; ex_iv true (-1)]);
        (6, VL [VZ (-64); VZ 63; VZ (-1)]); (8, VL [VZ 9223372036854775807; VZ (-9223372036854775808)]) ].
 
 Example C16_nonvacuous :
   shape_ok ex_t = true /\ wf (erase ex_t) = true /\ has_ty (erase ex_t) ex_v = true /\
-  no_byte_array ex_t = true /\ no_proxy_names ex_t = true /\ names_distinct ex_t = true /\
+  no_proxy_names ex_t = true /\ names_distinct ex_t = true /\
   c_text ex_t (store ex_t ex_v) =
-    Some "{""c"":2,""t"":-140737488355328,""a"":31,""inn"":{""x"":-4096,""ok"":true},""arr"":[{""x"":4095,""ok"":false},{""x"":-1,""ok"":true}],""small"":[-64,63,-1],""w"":[1,8589934591,0],""tt"":[9223372036854775807,-9223372036854775808]}" /\
+    Some "{""c"":2,""t"":-140737488355328,""a"":31,""inn"":{""x"":-4096,""ok"":true},""arr"":[{""x"":4095,""ok"":false},{""x"":-1,""ok"":true}],""small"":[-64,63,-1],""w"":[1,8589934591,0],""tt"":[9223372036854775807,-9223372036854775808],""raw"":[255,0]}" /\
   py_to_json "," ":" ex_t ex_v = POk (print_compact (expected ex_t ex_v)) /\
   c_text ex_t (store ex_t ex_v) = Some (print_compact (expected ex_t ex_v)) /\
   names_safe ex_t = true /\ wf_json (print_compact (expected ex_t ex_v)) = true.
